@@ -54,6 +54,8 @@ impl<'a> MlpgAdjust<'a> {
         let mut pars = vec![vec![0.0; self.vector_length]; msd_flag.mask().len()];
 
         for vector_index in 0..self.vector_length {
+            #[cfg(feature = "verif-hooks")]
+            crate::verif::point("mlpg.vector");
             let parameters: Vec<Vec<MeanVari>> = self
                 .windows
                 .iter()
@@ -83,9 +85,13 @@ impl<'a> MlpgAdjust<'a> {
                 })
                 .collect();
 
+            #[cfg(feature = "verif-hooks")]
+            crate::verif::point("mlpg.parameters");
             let mut mtx = MlpgMatrix::calc_wuw_and_wum(self.windows, parameters);
             let par = mtx.par(&self.gv, vector_index, self.gv_weight, durations, &msd_flag);
 
+            #[cfg(feature = "verif-hooks")]
+            crate::verif::point("mlpg.par");
             for (par, value) in pars.iter_mut().zip(msd_flag.fill(par, NODATA)) {
                 par[vector_index] = value;
             }
